@@ -136,6 +136,25 @@ def run_case(acc, subj, lab, wname, offset="0"):
                     viol("std_not_finite_nonnegative", "query point %s: std=%r mean=%r" % (Q[qi].tolist(), std[qi], mean[qi]),
                          {"far_query": bool(qi == 2), "kernel": subj.kernel})
                     break
+    # ---- the representation of the query points is irrelevant: integer-typed query points give the predictions of the same points as floats
+    Qi = np.array([[1], [3], [60]], dtype=int)
+    try:
+        with warnings.catch_warnings():
+            warnings.simplefilter("ignore")
+            if subj.probabilistic:
+                ri = reg.predict(Qi, return_std=True)
+                rf = reg.predict(Qi.astype(float), return_std=True)
+            else:
+                ri, rf = (reg.predict(Qi),), (reg.predict(Qi.astype(float)),)
+        acc.transitions += 2
+        for nm, a, b in zip(("mean", "std"), ri, rf):
+            a, b = np.asarray(a, dtype=float), np.asarray(b, dtype=float)
+            if a.shape != b.shape or not np.allclose(a, b, rtol=1e-12, atol=1e-12, equal_nan=True):
+                viol("prediction_depends_on_query_dtype", "%s for integer query points %s, for the same points as floats %s" % (nm, a.tolist(), b.tolist()),
+                     {"could_not_fit": could_not_fit})
+                break
+    except Exception as e:
+        viol("exception_in_predict:" + type(e).__name__, "integer query points: " + str(e)[:200], {"could_not_fit": could_not_fit})
     # ---- documented fall-backs of the wrappers
     if subj.wrapper:
         if n_lab == 0:
